@@ -34,6 +34,9 @@ type Entry struct {
 	Metric bool    `json:"metric"`
 	Pad    int     `json:"pad"` // extra bytes of line text
 	Val    float64 `json:"val"`
+	// Snap: 1 = the timestamp is exactly the last UTC midnight before the send time, 2 = one nanosecond (one millisecond
+	// where the protocol carries milliseconds) before that midnight
+	Snap int `json:"snap,omitempty"`
 }
 
 // Stream is a label set with entries.
@@ -130,6 +133,10 @@ func genEntries(rt *rapid.T, l string, s Stream, metricOnly, logOnly bool, big b
 			e.Pad = rapid.SampledFrom([]int{0, 0, 700, 1100000}).Draw(rt, fmt.Sprintf("%s.e%d.pad", l, i))
 		}
 		s.Entries = append(s.Entries, e)
+	}
+	if rapid.IntRange(0, 5).Draw(rt, l+".midnight") == 0 {
+		// the last instant of a day followed by the first instant of the next one, at the end of the stream
+		s.Entries = append(s.Entries, Entry{Snap: 2, Metric: metricOnly}, Entry{Snap: 1, Metric: metricOnly})
 	}
 	return s
 }
